@@ -14,6 +14,9 @@ use crate::{Result, TransformConfig};
 /// Process-wide beacon (sum over all threads) so a watchdog thread can see progress.
 pub static ELEM_EVALS_TOTAL: AtomicU64 = AtomicU64::new(0);
 pub static EXPR_EVALS_TOTAL: AtomicU64 = AtomicU64::new(0);
+/// Any other hooked step (retry pass, loop iteration, rng draw, scanner step): lets a
+/// watchdog tell "busy but progressing" from "spinning without reaching any hook".
+pub static OTHER_STEPS_TOTAL: AtomicU64 = AtomicU64::new(0);
 
 #[derive(Clone, Copy, Debug, Default)]
 pub struct Counters {
@@ -63,14 +66,17 @@ pub fn elem_eval(depth: u32) {
 }
 
 pub fn retry_pass() {
+    OTHER_STEPS_TOTAL.fetch_add(1, Ordering::Relaxed);
     update(|c| c.retry_passes += 1);
 }
 
 pub fn loop_iter() {
+    OTHER_STEPS_TOTAL.fetch_add(1, Ordering::Relaxed);
     update(|c| c.loop_iters += 1);
 }
 
 pub fn rng_draw() {
+    OTHER_STEPS_TOTAL.fetch_add(1, Ordering::Relaxed);
     update(|c| c.rng_draws += 1);
 }
 
@@ -108,6 +114,7 @@ pub const STALL_LIMIT: u64 = 64;
 /// `STALL_LIMIT` times in a row, can never terminate: report it by panicking
 /// with a recognisable message (the loop would otherwise spin forever).
 pub fn scanner_progress(site: &'static str, before: usize, after: usize) {
+    OTHER_STEPS_TOTAL.fetch_add(1, Ordering::Relaxed);
     update(|c| c.scanner_steps += 1);
     if after > before {
         STALL_RUN.with(|s| s.set(0));
